@@ -457,6 +457,12 @@ impl Control {
         if id_v != rt(&want_id) {
             bad.push(format!("id {} is not the request id {}", id_v, want_id));
         }
+        // the `jsonrpc` member exactly as written on the wire (compared with the model's Response.jsonrpc):
+        // `v<hex of the string>`, `v?` when the member is absent or not a string
+        let ver_tok = match obj.get("jsonrpc").and_then(Value::as_str) {
+            Some(v) => format!("v{}", hex_str(v)),
+            None => "v?".to_string(),
+        };
         let mut out;
         let mut got: Option<Expect> = None;
         if has_err {
@@ -478,7 +484,8 @@ impl Control {
             self.classes.insert(format!("{code}"));
             mon.count(&format!("resp:{code}"));
             out = format!(
-                "err/{}/{}/s{}/{}",
+                "err/{}/{}/{}/s{}/{}",
+                ver_tok,
                 code,
                 enc_echo(&id_v, req_id),
                 hex_str(msg.unwrap_or("")),
@@ -496,7 +503,7 @@ impl Control {
                     .and_then(|s| serde_json::from_str(&s.to_json()).ok()),
                 _ => None,
             };
-            out = format!("ok/{}/{}", enc_echo(&id_v, req_id), enc_echo(&obj["result"], stats_v.as_ref()));
+            out = format!("ok/{}/{}/{}", ver_tok, enc_echo(&id_v, req_id), enc_echo(&obj["result"], stats_v.as_ref()));
         } else {
             out = "MALFORMED".to_string();
         }
